@@ -751,10 +751,12 @@ _BRACKET = _re.compile(r"\[[0-9]+\]$")
 def classify_cable_names(cab_obs, cab_w, got):
     """The re-read cable names differ from the written ones.  Known reader conventions that rename
     cables (each a pinned finding with its own sub-domain); anything else is a new failure."""
+    if any(w > 1 and o["name"].startswith("\\") for o, w in zip(cab_obs, cab_w)):
+        # the reader treats a name starting with a backslash as an escaped Verilog identifier and does
+        # not split the `[index]` off: the bits of such a bus come back as separate scalar cables
+        return "compose_parse.backslash-bus-cable"
     if any(w > 1 and o["ident"] != o["name"] for o, w in zip(cab_obs, cab_w)):
-        # multi-wire cable whose name is not itself an identifier: the reader's bus-merging heuristics
-        # (`&_` identifiers, backslash names, ...) do not restore the cable
-        return "compose_parse.renamed-bus-cable"
+        return "compose_parse.renamed-bus-cable"             # fixed by 4c30cd0: must not come back
     if any(w == 1 and _BRACKET.search(o["name"]) for o, w in zip(cab_obs, cab_w)):
         return "compose_parse.cable-name-bracket-index"      # scalar net `x[3]` re-read as bit 3 of `x`
     return "compose_parse.names-differ.cables"
@@ -1050,6 +1052,8 @@ class Runner:
                     sig = "compose_parse.bus-bit-identifier-too-long"
                 elif rr["raised"] == "index" and any(o["name"].endswith("[") for o in cab_obs):
                     sig = "compose_parse.cable-name-ends-with-open-bracket"
+                elif any(w > 1 and o["name"].startswith("\\") for o, w in zip(cab_obs, cab_w)):
+                    sig = "compose_parse.backslash-bus-cable"
                 elif any(w > 1 and o["ident"] != o["name"] for o, w in zip(cab_obs, cab_w)):
                     sig = "compose_parse.renamed-bus-cable"
                 else:
